@@ -268,6 +268,17 @@ def run(tier, seed, replay=None):
             s_, e_ = O.domain(b)
             tp.append(float(s_ + (e_ - s_) * Fr(rng.randint(1, 63), 64)))
         if not spec['rational'] and all(b['order'] >= 2 for b in spec['bases']):
+            if rng.random() < 0.35:
+                # the same object far from the origin or on a tiny domain in one direction (knot values large or small
+                # compared with the knot spans): the derivative spline must still agree with derivative()
+                dmv = rng.randrange(pd)
+                a_ = rng.choice([1.0e6, -2.5e5, 3.0e7, 0.0])
+                w_ = rng.choice([4.0, 1.0, 2.0 ** -20]) if a_ == 0.0 else rng.choice([4.0, 1.0, 64.0])
+                s0, e0 = o.start(dmv), o.end(dmv)
+                o = o.clone()
+                o.reparam((a_, a_ + w_), direction=dmv)
+                tp[dmv] = a_ + (tp[dmv] - s0) / (e0 - s0) * w_
+                spec = dict(spec, moved=dict(direction=dmv, start=a_, width=w_))
             for d in range(pd):
                 try:
                     ds = o.get_derivative_spline(d)
@@ -276,11 +287,11 @@ def run(tier, seed, replay=None):
                     al[d] = 1
                     v2 = np.asarray(o.derivative(*tp, d=tuple(al)) if pd > 1 else o.derivative(tp[0], d=1))
                     nds += 1
-                    if not np.allclose(v1, v2, rtol=1e-8, atol=1e-8 * max(1, np.abs(v2).max())):
-                        V.failure({'what': 'derivative spline differs from derivative()', 'obj': O.spec_json(spec), 'direction': d,
+                    if not np.allclose(v1, v2, rtol=1e-6, atol=1e-6 * max(1e-300, np.abs(v2).max())):
+                        V.failure({'what': 'derivative spline differs from derivative()', 'obj': O.spec_json(spec), 'moved': spec.get('moved'), 'direction': d,
                                    'params': tp, 'spline': v1.tolist(), 'derivative': v2.tolist()})
                 except Exception as e:  # noqa
-                    V.failure({'what': 'get_derivative_spline raised %s' % type(e).__name__, 'obj': O.spec_json(spec), 'direction': d, 'msg': str(e)})
+                    V.failure({'what': 'get_derivative_spline raised %s' % type(e).__name__, 'obj': O.spec_json(spec), 'moved': spec.get('moved'), 'direction': d, 'msg': str(e)})
         # tangents
         try:
             for d in range(pd):
